@@ -461,15 +461,23 @@ class WriteRecorder:
         self.patched = []
 
     def shared_classes(self):
-        from xsdata.formats import converter as conv
-        from xsdata.formats.dataclass import context, parsers, serializers
-        from xsdata.formats.dataclass.models import elements
-        from xsdata.formats.dataclass.parsers import bases, config as pconfig, mixins
-        from xsdata.formats.dataclass.serializers import config as sconfig, mixins as smixins
+        import importlib
 
-        classes = [context.XmlContext, elements.XmlMeta, elements.XmlVar, pconfig.ParserConfig, sconfig.SerializerConfig,
-                   mixins.PushParser, bases.NodeParser, parsers.DictDecoder, smixins.EventGenerator, serializers.DictEncoder,
-                   serializers.PycodeSerializer, conv.ConverterFactory, conv.Converter]
+        wanted = [
+            ("xsdata.formats.dataclass.context", "XmlContext"), ("xsdata.formats.dataclass.models.elements", "XmlMeta"),
+            ("xsdata.formats.dataclass.models.elements", "XmlVar"), ("xsdata.formats.dataclass.parsers.config", "ParserConfig"),
+            ("xsdata.formats.dataclass.serializers.config", "SerializerConfig"), ("xsdata.formats.dataclass.parsers.mixins", "PushParser"),
+            ("xsdata.formats.dataclass.parsers.bases", "NodeParser"), ("xsdata.formats.dataclass.parsers", "DictDecoder"),
+            ("xsdata.formats.dataclass.serializers.mixins", "EventGenerator"), ("xsdata.formats.dataclass.serializers", "DictEncoder"),
+            ("xsdata.formats.dataclass.serializers", "PycodeSerializer"), ("xsdata.formats.converter", "ConverterFactory"),
+            ("xsdata.formats.converter", "Converter"),
+        ]
+        classes = []
+        for modname, clsname in wanted:
+            try:
+                classes.append(getattr(importlib.import_module(modname), clsname))
+            except Exception:
+                pass  # the class moved or was renamed: the recorder simply knows less
         out = []
         seen = set()
         stack = list(classes)
